@@ -1,5 +1,229 @@
 import GnpyModel.Scalar
-/- model file Spectrum (see DESIGN.md §2) -/
-namespace Gnpy
+/-
+C01 / C02 — power bookkeeping of `gnpy.core.info.SpectralInformation` and the way the elements of
+`gnpy.core.elements` use it.
 
-end Gnpy
+One channel of a `SpectralInformation` is a record `Chan` (`_pch`, `_signal_ratio`, `_ase_ratio`,
+`_nli_ratio`).  The six mutating methods (`apply_attenuation_lin/db`, `apply_gain_lin/db`, `add_ase`,
+`add_nli`) are the constructors of `Op`; numpy broadcasting is spelled out (an `Op` carries the
+value of *this* channel).  `run` folds an op list over a channel.  Element `propagate` methods
+are the op lists `fusedOps`, `roadmOps`, `fiberOps`, `ramanOps`, `edfaOps` (the numeric kernels that
+produce the NLI / ASE / loss vectors are parameters here: C03, C04, C05 pin them).  Band split and
+merge (`select_channels`, `__add__`, `muxed_spectral_information`, `Multiband_amplifier.__call__`)
+act on keyed channels (integer-Hz frequency × `Chan`).  `Transceiver._calc_snr/update_snr` and
+`utils.snr_sum` give the reported figures.
+-/
+namespace Gnpy.Spectrum
+
+/-- one channel of a SpectralInformation: total power (W) and the three shares -/
+structure Chan (α : Type) where
+  p : α
+  s : α
+  a : α
+  n : α
+
+/-- the six mutating methods of SpectralInformation, with the argument seen by one channel -/
+inductive Op (α : Type) where
+  | attLin (g : α)
+  | attDb (d : α)
+  | gainLin (g : α)
+  | gainDb (d : α)
+  | addAse (e : α)
+  | addNli (x : α)
+
+section
+variable {α : Type} [Add α] [Sub α] [Mul α] [Div α] [Neg α] [NatCast α] [LT α] [LE α]
+  [DecidableLT α] [DecidableLE α] [Transc α]
+
+namespace Chan
+
+/-- `apply_attenuation_lin`: `self.pch *= attenuation_lin` -/
+def attLin (c : Chan α) (g : α) : Chan α := { c with p := c.p * g }
+
+/-- `apply_attenuation_db`: `attenuation_lin = 1 / db2lin(attenuation_db)` -/
+def attDb (c : Chan α) (d : α) : Chan α := c.attLin (((1:Nat) : α) / db2lin d)
+
+/-- `apply_gain_lin`: `self.pch *= gain_lin` -/
+def gainLin (c : Chan α) (g : α) : Chan α := { c with p := c.p * g }
+
+/-- `apply_gain_db`: `gain_lin = db2lin(gain_db)` -/
+def gainDb (c : Chan α) (d : α) : Chan α := c.gainLin (db2lin d)
+
+/-- `add_ase`:
+```
+pch = self.pch + ase
+self._signal_ratio *= self.pch / pch
+self._nli_ratio *= self.pch / pch
+self._ase_ratio = (self._ase_ratio * self.pch + ase) / pch
+self.pch = pch
+``` -/
+def addAse (c : Chan α) (e : α) : Chan α :=
+  let p' := c.p + e
+  { p := p', s := c.s * (c.p / p'), n := c.n * (c.p / p'), a := (c.a * c.p + e) / p' }
+
+/-- `add_nli`:
+```
+nli_ratio = nli / self.pch
+self._signal_ratio *= (1 - nli_ratio)
+self._ase_ratio *= (1 - nli_ratio)
+self._nli_ratio = (self._nli_ratio * (1 - nli_ratio) + nli_ratio)
+``` -/
+def addNli (c : Chan α) (x : α) : Chan α :=
+  let r := x / c.p
+  { p := c.p, s := c.s * (((1:Nat) : α) - r), a := c.a * (((1:Nat) : α) - r),
+    n := c.n * (((1:Nat) : α) - r) + r }
+
+/-- the derived powers `signal`, `ase`, `nli` (properties of SpectralInformation) -/
+def signal (c : Chan α) : α := c.s * c.p
+def ase (c : Chan α) : α := c.a * c.p
+def nli (c : Chan α) : α := c.n * c.p
+
+/-- `snr_lin` = signal_ratio / ase_ratio  (OSNR_ASE in the signal bandwidth) -/
+def snrLin (c : Chan α) : α := c.s / c.a
+/-- `snr_nli` = signal_ratio / nli_ratio -/
+def snrNli (c : Chan α) : α := c.s / c.n
+/-- `gsnr` = signal_ratio / (ase_ratio + nli_ratio) -/
+def gsnr (c : Chan α) : α := c.s / (c.a + c.n)
+
+/-- noise-to-signal ratios (the inverses of the three figures; total also when a share is zero) -/
+def nsrAse (c : Chan α) : α := c.a / c.s
+def nsrNli (c : Chan α) : α := c.n / c.s
+def nsr (c : Chan α) : α := (c.a + c.n) / c.s
+
+def snrLinDb (c : Chan α) : α := lin2db c.snrLin
+def snrNliDb (c : Chan α) : α := lin2db c.snrNli
+def gsnrDb (c : Chan α) : α := lin2db c.gsnr
+
+end Chan
+
+/-- the literal `12.5e9` (0.1 nm reference bandwidth) -/
+def refBw : α := ((12500000000:Nat) : α)
+
+/-- `opt_*_db`: figure in 0.1 nm, `x - lin2db(12.5e9 / baud_rate)` -/
+def optDb (x baud : α) : α := x - lin2db (refBw / baud)
+
+/-- one mutating call on one channel -/
+def step (c : Chan α) : Op α → Chan α
+  | .attLin g => c.attLin g
+  | .attDb d => c.attDb d
+  | .gainLin g => c.gainLin g
+  | .gainDb d => c.gainDb d
+  | .addAse e => c.addAse e
+  | .addNli x => c.addNli x
+
+/-- a sequence of mutating calls -/
+def run (ops : List (Op α)) (c : Chan α) : Chan α := ops.foldl step c
+
+/-! ### elements (gnpy/core/elements.py `propagate` methods) -/
+
+/-- `Fused.propagate`: `apply_attenuation_db(self.loss)` -/
+def fusedOps (loss : α) : List (Op α) := [.attDb loss]
+
+/-- `Roadm.propagate`: `apply_attenuation_db(roadm_maxloss_db)` then `apply_attenuation_db(delta_power)` -/
+def roadmOps (maxloss delta : α) : List (Op α) := [.attDb maxloss, .attDb delta]
+
+/-- `Fiber.propagate`: input connector+padding (dB), NLI at the fibre input, fibre loss profile
+(linear), output connector (dB) -/
+def fiberOps (attIn nli attFiber attOut : α) : List (Op α) :=
+  [.attDb attIn, .addNli nli, .attLin attFiber, .attDb attOut]
+
+/-- `RamanFiber.propagate`: as Fiber plus spontaneous Raman ASE after the NLI -/
+def ramanOps (attIn nli ase attFiber attOut : α) : List (Op α) :=
+  [.attDb attIn, .addNli nli, .addAse ase, .attLin attFiber, .attDb attOut]
+
+/-- `Edfa.propagate`: optional input VOA (`if self.in_voa is not None`), ASE referred to the input,
+then `apply_gain_db(gprofile - out_voa)` -/
+def edfaOps (inVoa : Option α) (ase gainDb : α) : List (Op α) :=
+  (match inVoa with
+   | some v => [.attDb v]
+   | none => []) ++ [.addAse ase, .gainDb gainDb]
+
+/-- a line element as one channel sees it -/
+inductive Elem (α : Type) where
+  | fused (loss : α)
+  | roadm (maxloss delta : α)
+  | fiber (attIn nli attFiber attOut : α)
+  | raman (attIn nli ase attFiber attOut : α)
+  | edfa (inVoa : Option α) (ase gainDb : α)
+  | trx
+
+def Elem.ops : Elem α → List (Op α)
+  | .fused l => fusedOps l
+  | .roadm m d => roadmOps m d
+  | .fiber i x f o => fiberOps i x f o
+  | .raman i x e f o => ramanOps i x e f o
+  | .edfa v e g => edfaOps v e g
+  | .trx => []
+
+/-- element `__call__` on one channel -/
+def Elem.apply (e : Elem α) (c : Chan α) : Chan α := run e.ops c
+
+/-- `request.propagate`: `for el in path: si = el(si)` as one channel sees it -/
+def path (es : List (Elem α)) (c : Chan α) : Chan α := es.foldl (fun c e => e.apply c) c
+
+/-- a whole spectrum through one element: channel `i` sees `es[i]` (numpy broadcasting spelled out) -/
+def applyElems (es : List (Elem α)) (sp : List (Chan α)) : List (Chan α) :=
+  List.zipWith Elem.apply es sp
+
+/-! ### band split / merge on keyed channels (key = frequency in Hz) -/
+
+/-- `select_channels(spectrum, select)` -/
+def demux (keep : Int → Bool) (sp : List (Int × Chan α)) : List (Int × Chan α) :=
+  sp.filter (fun kc => keep kc.1)
+
+/-- insertion into a key-sorted list (before equal keys; with `sortK` below: a stable sort) -/
+def insertK (x : Int × Chan α) : List (Int × Chan α) → List (Int × Chan α)
+  | [] => [x]
+  | y :: ys => if x.1 ≤ y.1 then x :: y :: ys else y :: insertK x ys
+
+/-- `argsort(frequency)` of the constructor (stable insertion sort; accepted spectra have distinct
+frequencies so stability is immaterial) -/
+def sortK : List (Int × Chan α) → List (Int × Chan α)
+  | [] => []
+  | x :: xs => insertK x (sortK xs)
+
+/-- `SpectralInformation.__add__` as far as the bookkeeping is concerned: append, re-sort
+(rejections are C07's model `Bands.mkSpectrum`) -/
+def add2 (x y : List (Int × Chan α)) : List (Int × Chan α) := sortK (x ++ y)
+
+/-- `muxed_spectral_information`: `l[0] + mux(l[1:])`; `none` = `ValueError('liste vide')` -/
+def mux : List (List (Int × Chan α)) → Option (List (Int × Chan α))
+  | [] => none
+  | [x] => some x
+  | x :: y :: r =>
+    match mux (y :: r) with
+    | some m => some (add2 x m)
+    | none => none
+
+/-- `Multiband_amplifier.__call__`: each amplifier (band predicate, per-frequency element) takes its
+own channels, empty selections are skipped, the outputs are merged.
+`none` = `ValueError('Defined propagation band does not match amplifiers band.')` -/
+def multiband (amps : List ((Int → Bool) × (Int → Elem α))) (sp : List (Int × Chan α)) :
+    Option (List (Int × Chan α)) :=
+  let outs := amps.filterMap (fun bf =>
+    let si := demux bf.1 sp
+    if si.isEmpty then none else some (si.map (fun kc => (kc.1, (bf.2 kc.1).apply kc.2))))
+  mux outs
+
+/-! ### reported figures (Transceiver) -/
+
+/-- `utils.snr_sum(snr, bw, snr_added, bw_added=12.5e9)` -/
+def snrSum (snr bw snrAdded : α) : α :=
+  let sa := snrAdded - lin2db (bw / refBw)
+  Neg.neg (lin2db (db2lin (-snr) + db2lin (-sa)))
+
+/-- `snr_added` of `Transceiver.update_snr(*args)` (the `None` arguments already dropped) -/
+def snrAddedLin (args : List α) : α := args.foldl (fun acc s => acc + db2lin (-s)) ((0:Nat) : α)
+def snrAdded (args : List α) : α := Neg.neg (lin2db (snrAddedLin args))
+
+/-- what `Transceiver._calc_snr` records (dB, signal bandwidth): `(osnr_ase, osnr_nli, snr)` -/
+def calcSnr (c : Chan α) : α × α × α := (c.snrLinDb, c.snrNliDb, c.gsnrDb)
+
+/-- `Transceiver.update_snr`: `(osnr_ase, osnr_nli, snr)` after adding the lumped penalties; uses the raw values;
+`osnr_nli` is left as recorded -/
+def updateSnr (c : Chan α) (baud : α) (args : List α) : α × α × α :=
+  let added := snrAdded args
+  (snrSum c.snrLinDb baud added, c.snrNliDb, snrSum c.gsnrDb baud added)
+
+end
+end Gnpy.Spectrum
